@@ -207,6 +207,29 @@ def rule_pairing(ctx: Ctx) -> None:
     add = ctx.func(f"{LM}.create_loan")
     ctx.check(any((A.call_name(c) or "") == "self._loans.add" for c in A.func_calls(add)), "C02.4", "created loans are registered", add,
               add.node, "self._loans.add(loan)", "created loan is not registered", key_text="loan registered")
+    # between the ledger commit and the registration nothing may fail: otherwise borrowed > 0 with no open loan behind it
+    ga = ctx.cfg(add)
+    upc = [c for c in A.func_calls(add) if (A.call_name(c) or "").endswith("account_balances.update")]
+    reg = [c for c in A.func_calls(add) if (A.call_name(c) or "") == "self._loans.add"]
+    if upc and reg:
+        sm_ = S.get(ctx)
+        un_, rn_ = ga.nodes_for(upc[0])[0], ga.nodes_for(reg[0])[0]
+        between = [n for n in ga.reach([un_], stop=lambda n: n is rn_, labels=C.NO_EXC) if n is not un_ and n is not rn_]
+        risky = []
+        for n in between:
+            for e in C.exprs_of(n):
+                for x in C.walk_shallow(e):
+                    if isinstance(x, ast.Call) and sm_.call_raises(add.module, x):
+                        risky.append((x, sorted(sm_.call_raises(add.module, x))))
+            if n.ast is not None and isinstance(n.ast, (ast.Raise, ast.Assert)):
+                risky.append((n.ast, ["raise"]))
+        ctx.check(not risky, "C02.4", "nothing can fail between crediting the borrowed funds and registering the loan", add,
+                  risky[0][0] if risky else reg[0], "no raising call between account_balances.update and self._loans.add",
+                  f"'{ast.unparse(risky[0][0])[:60] if risky else ''}' may raise {risky[0][1] if risky else ''} after the borrowed amount was committed "
+                  "and before the loan is registered: the account keeps borrowed funds that no open loan accounts for", key_text="commit then register")
+        p_ = ga.always_followed_by(un_, lambda n: n is rn_, labels=C.NO_EXC)
+        ctx.check(p_ is None, "C02.4", "every committed borrowing is registered as an open loan", add, reg[0], "registration post-dominates the commit",
+                  "a path commits the borrowed amount without registering the loan", key_text="register post-dominates")
 
 
 def rule_refuse_fill(ctx: Ctx) -> None:
